@@ -178,7 +178,20 @@ impl<SystemType : System> SysCache<SystemType>
             {
                 match system.rename(&cache_path, &target_path)
                 {
-                    Err(error) => RestoreResult::SystemError(error),
+                    Err(error) =>
+                    {
+                        /*  Another rule's thread can take the same entry between the check
+                            above and the rename.  If the entry is gone, that is not an
+                            error: it is simply not there (anymore). */
+                        if system.is_file(&cache_path)
+                        {
+                            RestoreResult::SystemError(error)
+                        }
+                        else
+                        {
+                            RestoreResult::NotThere
+                        }
+                    },
                     Ok(()) => RestoreResult::Done
                 }
             }
